@@ -232,6 +232,7 @@ VAL = {
     'k': lambda i: pick(i, 'a', 'b', 'c'),
     'k2': lambda i: pick(i, 'b', 'a', 'b'),
     'rev': lambda i: pick(i, 0, 1, 0),
+    'ks': lambda i: pick(i, '', 'zz', ''),
     'st': lambda i: pick(i, 1, 3, 2),
     'sz': lambda i: pick(i, 2, 3, 2),
     'seq': rows,
@@ -393,6 +394,12 @@ _T = [
      ['seq', 'objs'], None, 0),
     ('in_sort_expr', 'HTML', '<dtml-in seq mapping sort_expr="k">' + ROW + '</dtml-in>',
      '<dtml-in objs sort_expr="k2">' + ROW + '</dtml-in>', ['seq', 'objs', 'k', 'k2'], None, 0),
+    # a sort_expr that evaluates to the empty sort (order by the element itself) or to a key no element has,
+    # combined with reversing, over the caller's own lists and the template's default list
+    ('in_sort_expr_empty', 'HTML',
+     '<dtml-in nums sort_expr="ks" reverse><dtml-var sequence-item>,</dtml-in>|<dtml-in words sort_expr="ks" reverse_expr="rev"><dtml-var sequence-item>,</dtml-in>',
+     '<dtml-in dl sort_expr="ks" reverse><dtml-var sequence-item></dtml-in>|<dtml-in nums sort_expr="ks" reverse_expr="not rev"><dtml-var sequence-item>,</dtml-in>',
+     ['nums', 'words', 'ks', 'rev'], 'plain', 0),
     ('in_sort_expr_batch', 'HTML', '<dtml-in seq mapping sort_expr="k" size=sz start=st>' + ROW + '</dtml-in>',
      '<dtml-in seq mapping sort_expr="k2" reverse_expr="rev" size=3>' + ROW + '</dtml-in>',
      ['seq', 'k', 'k2', 'rev', 'st', 'sz'], None, 0),
@@ -472,6 +479,20 @@ _T = [
     ('tree_expr', 'HTML', '<dtml-tree expr="root" branches_expr="tpValues()" sort=id><dtml-var id></dtml-tree>',
      '<dtml-tree root branches_expr="kids[:2]" reverse><dtml-var id>/<dtml-var tree-level></dtml-tree>',
      ['root', 'URL', 'RESPONSE', 'tree-e', 'expand_all'], None, 0),
+    # expressions that mention names some namespaces do not define (short-circuited, tested with has_key, or a
+    # caught NameError): what one render lacked must not be remembered by the compiled expression
+    ('expr_optional', 'HTML',
+     '<dtml-var "x or other">|<dtml-var "_.has_key(\'other\') and other or \'no\'">|<dtml-if "z and opt">ZO<dtml-else>nzo</dtml-if>',
+     '<dtml-let v="nul or opt"><dtml-var v missing=none null=nil></dtml-let>|<dtml-in "maybe or other"><dtml-var sequence-item></dtml-in>',
+     ['x', 'z', 'nul', 'other', 'opt', 'maybe'], None, 0),
+    ('expr_nameerror', 'HTML',
+     '<dtml-try><dtml-var "opt.upper()"><dtml-except NameError>NE</dtml-try>|<dtml-var "flag + 1">',
+     '<dtml-try><dtml-if "other"><dtml-var other><dtml-else>empty</dtml-if><dtml-except>undefined</dtml-try>',
+     ['opt', 'flag', 'other'], None, 0),
+    ('guarded_expr_optional', 'GuardedHTML',
+     '<dtml-var "x or other">|<dtml-if "z and opt">ZO<dtml-else>nzo</dtml-if>',
+     '<dtml-let v="nul or opt"><dtml-var v missing=none null=nil></dtml-let>',
+     ['x', 'z', 'nul', 'other', 'opt'], None, 0),
     ('guarded_expr', 'GuardedHTML', '<dtml-var "obj.name"> <dtml-var "x + 1"><dtml-in objs sort_expr="k"><dtml-var "c"> </dtml-in><dtml-if "x > 2">big</dtml-if>',
      '<dtml-let v="obj.age + x"><dtml-var v></dtml-let><dtml-with "obj.inner"><dtml-var name></dtml-with>',
      ['obj', 'x', 'objs', 'k'], None, 0),
@@ -491,7 +512,7 @@ class Spec:
         self.name = name
         self.cls = cls
         self.markers = {1: MK(name, 1), 2: MK(name, 2)}
-        self.src = {1: src1 + self.markers[1], 2: src2 + self.markers[2]}
+        self.src = {0: '', 1: src1 + self.markers[1], 2: src2 + self.markers[2]}      # 0: the empty source
         self.keys = keys
         self.defaults = defaults
         self.munge_defaults = munge_defaults
@@ -641,7 +662,7 @@ def make_files(tmpdir):
     import os
     for spec in SPECS:
         if spec.is_file:
-            for j in (1, 2):
+            for j in (0, 1, 2):
                 p = os.path.join(tmpdir, '%s_%d.dtml' % (spec.name, j))
                 with open(p, 'w') as f:
                     f.write(spec.src[j])
